@@ -508,6 +508,11 @@ func (s *startupCoordinator) authenticateHandshake(ctx context.Context, authFram
 			}
 			return nil
 		case *authChallengeFrame:
+			if challenger == nil {
+				// the authenticator did not expect a further challenge
+				// (e.g. PasswordAuthenticator returns no challenger)
+				return fmt.Errorf("gocql: unexpected authentication challenge from server")
+			}
 			resp, challenger, err = challenger.Challenge(v.data)
 			if err != nil {
 				return err
